@@ -113,6 +113,135 @@ theorem nonempty_collectAll (ts : List BranchTree) : ∀ d ∈ collectAll ts, d.
         · exact nonempty_addBranch _ _ _ _ h
       · exact h
 
+/-! the branch list of a key, in order -/
+
+/-- `m[key].Branches` (empty when the key is absent) -/
+def branchesOf : Files → Path → Blob → List Branch
+  | [], _, _ => []
+  | d :: r, p, x => if d.path = p ∧ d.blob = x then d.branches else branchesOf r p x
+
+theorem branchesOf_addBranch (m : Files) (p : Path) (x : Blob) (b : Branch) (p' : Path) (x' : Blob) :
+    branchesOf (addBranch m p x b) p' x' =
+      if p = p' ∧ x = x' then branchesOf m p x ++ [b] else branchesOf m p' x' := by
+  induction m with
+  | nil =>
+    by_cases h : p = p' ∧ x = x' <;> simp [addBranch, branchesOf, h]
+  | cons d r ih =>
+    unfold addBranch
+    by_cases hk : d.path = p ∧ d.blob = x
+    · rw [if_pos hk]
+      by_cases h : p = p' ∧ x = x'
+      · obtain ⟨rfl, rfl⟩ := h
+        simp [branchesOf, hk]
+      · have : ¬ (d.path = p' ∧ d.blob = x') := by
+          intro hh; apply h; exact ⟨hk.1.symm.trans hh.1, hk.2.symm.trans hh.2⟩
+        simp [branchesOf, h, this]
+    · rw [if_neg hk]
+      by_cases h : p = p' ∧ x = x'
+      · obtain ⟨rfl, rfl⟩ := h
+        simp only [branchesOf, hk, if_false, ih, true_and, if_true, and_self]
+      · by_cases hd : d.path = p' ∧ d.blob = x'
+        · simp [branchesOf, h, hd]
+        · simp only [branchesOf, hd, if_false, ih, h]
+
+/-- entry `e` puts branch `b` on key (p, x) -/
+def TEntry.hits (ig : Path → Bool) (p : Path) (x : Blob) (e : TEntry) : Bool :=
+  e.path == p && e.hash == x && e.indexed && !ig e.path
+
+theorem branchesOf_handleEntry (ig : Path → Bool) (b : Branch) (m : Files) (e : TEntry) (p : Path) (x : Blob) :
+    branchesOf (handleEntry ig b m e) p x = branchesOf m p x ++ (if e.hits ig p x then [b] else []) := by
+  unfold handleEntry TEntry.hits
+  by_cases h1 : e.indexed = true
+  · cases hig : ig e.path
+    · simp only [h1, if_true, Bool.false_eq_true, if_false, branchesOf_addBranch]
+      by_cases h : e.path = p ∧ e.hash = x
+      · obtain ⟨rfl, rfl⟩ := h; simp [hig]
+      · have : (e.path == p && e.hash == x) = false := by
+          simp only [Bool.and_eq_false_imp, beq_iff_eq, beq_eq_false_iff_ne]
+          intro hp hx; exact h ⟨hp, hx⟩
+        simp [h, this]
+    · simp [h1, hig]
+  · simp [h1]
+
+theorem branchesOf_collectFiles (ig : Path → Bool) (b : Branch) (es : List TEntry) (m : Files) (p : Path)
+    (x : Blob) :
+    branchesOf (collectFiles m b ig es) p x =
+      branchesOf m p x ++ (es.filter (TEntry.hits ig p x)).map (fun _ => b) := by
+  unfold collectFiles
+  induction es generalizing m with
+  | nil => simp
+  | cons e es ih =>
+    rw [List.foldl_cons, ih, branchesOf_handleEntry]
+    by_cases h : e.hits ig p x = true <;> simp [List.filter_cons, h]
+
+/-- in a tree with distinct paths at most one entry hits a key -/
+theorem hits_le_one (ig : Path → Bool) (p : Path) (x : Blob) (es : List TEntry)
+    (hnd : (es.map (·.path)).Nodup) : (es.filter (TEntry.hits ig p x)).length ≤ 1 := by
+  induction es with
+  | nil => simp
+  | cons e es ih =>
+    simp only [List.map_cons, List.nodup_cons] at hnd
+    by_cases h : e.hits ig p x = true
+    · have hnone : es.filter (TEntry.hits ig p x) = [] := by
+        apply List.filter_eq_nil_iff.mpr
+        intro e' he' hh
+        apply hnd.1
+        have h1 : e.path = p := by
+          simp only [TEntry.hits, Bool.and_eq_true, beq_iff_eq] at h; exact h.1.1.1
+        have h2 : e'.path = p := by
+          simp only [TEntry.hits, Bool.and_eq_true, beq_iff_eq] at hh; exact hh.1.1.1
+        exact List.mem_map.mpr ⟨e', he', h2.trans h1.symm⟩
+      simp [List.filter_cons, h, hnone]
+    · simp only [List.filter_cons, h, Bool.false_eq_true, if_false]
+      exact ih hnd.2
+
+theorem branchesOf_collectFiles_nodup (t : BranchTree) (m : Files) (p : Path) (x : Blob)
+    (hnd : (t.entries.map (·.path)).Nodup) :
+    branchesOf (collectFiles m t.name t.ig t.entries) p x =
+      branchesOf m p x ++ (if t.contains p x then [t.name] else []) := by
+  rw [branchesOf_collectFiles]
+  congr 1
+  have hle := hits_le_one t.ig p x t.entries hnd
+  by_cases hc : t.contains p x = true
+  · rw [if_pos hc]
+    have hex : ∃ e ∈ t.entries, e.hits t.ig p x = true := by
+      unfold BranchTree.contains at hc
+      simp only [Bool.and_eq_true, List.any_eq_true, beq_iff_eq, Bool.not_eq_true'] at hc
+      obtain ⟨⟨e, he, ⟨h1, h2⟩, h3⟩, h4⟩ := hc
+      refine ⟨e, he, ?_⟩
+      simp [TEntry.hits, h1, h2, h3, h4]
+    obtain ⟨e, he, hh⟩ := hex
+    have hmem : e ∈ t.entries.filter (TEntry.hits t.ig p x) := List.mem_filter.mpr ⟨he, hh⟩
+    cases hf : t.entries.filter (TEntry.hits t.ig p x) with
+    | nil => rw [hf] at hmem; simp at hmem
+    | cons a r =>
+      rw [hf] at hle
+      cases r with
+      | nil => simp
+      | cons _ _ => simp at hle
+  · rw [if_neg hc]
+    have : t.entries.filter (TEntry.hits t.ig p x) = [] := by
+      apply List.filter_eq_nil_iff.mpr
+      intro e he hh
+      apply hc
+      unfold BranchTree.contains
+      simp only [TEntry.hits, Bool.and_eq_true, beq_iff_eq, Bool.not_eq_true'] at hh
+      simp only [Bool.and_eq_true, List.any_eq_true, beq_iff_eq, Bool.not_eq_true']
+      obtain ⟨⟨⟨h1, h2⟩, h3⟩, h4⟩ := hh
+      exact ⟨⟨e, he, ⟨h1, h2⟩, h3⟩, by rw [← h1]; exact h4⟩
+    simp [this]
+
+theorem branchesOf_collectAll_aux (ts : List BranchTree) (hnd : ∀ t ∈ ts, (t.entries.map (·.path)).Nodup)
+    (m : Files) (p : Path) (x : Blob) :
+    branchesOf (ts.foldl (fun m t => collectFiles m t.name t.ig t.entries) m) p x =
+      branchesOf m p x ++ (ts.filter (·.contains p x)).map (·.name) := by
+  induction ts generalizing m with
+  | nil => simp
+  | cons t ts ih =>
+    rw [List.foldl_cons, ih (fun t' ht' => hnd t' (List.mem_cons_of_mem _ ht')),
+      branchesOf_collectFiles_nodup t m p x (hnd t (by simp))]
+    by_cases hc : t.contains p x = true <;> simp [List.filter_cons, hc]
+
 /-! slab -/
 
 /-- region `r` was handed out by slab state `s` or a later one -/
